@@ -7,6 +7,7 @@
 
 #pragma once
 
+#include "iora/core/verif_hooks.hpp"
 #include <atomic>
 #include <chrono>
 #include <condition_variable>
@@ -101,7 +102,9 @@ public:
     // Wait until space available or closed
     _condNotFull.wait(lock, [this]()
     {
-      return _queue.size() < _maxSize || _closed.load(std::memory_order_acquire);
+      const bool ready = _queue.size() < _maxSize || _closed.load(std::memory_order_acquire);
+      IORA_VERIF_YIELD(ready ? "bq.put.ready" : "bq.put.wait"); // predicate evaluated, mutex held
+      return ready;
     });
 
     if (_closed.load(std::memory_order_acquire))
@@ -246,7 +249,9 @@ public:
     // Wait until item available or closed
     _condNotEmpty.wait(lock, [this]()
     {
-      return !_queue.empty() || _closed.load(std::memory_order_acquire);
+      const bool ready = !_queue.empty() || _closed.load(std::memory_order_acquire);
+      IORA_VERIF_YIELD(ready ? "bq.take.ready" : "bq.take.wait"); // predicate evaluated, mutex held
+      return ready;
     });
 
     // If closed and empty, return false
